@@ -87,7 +87,18 @@ func cmdSelftest(args []string) int {
 		}
 		cmd := exec.Command("git", "apply", "--whitespace=nowarn", patch)
 		cmd.Dir = scratch
-		if out, err := cmd.CombinedOutput(); err != nil {
+		out, err := cmd.CombinedOutput()
+		if err != nil {
+			// context drifted (e.g. a later fix: commit nearby): retry with fuzz
+			pc := exec.Command("patch", "-p1", "--fuzz=3", "--no-backup-if-mismatch", "-i", patch)
+			pc.Dir = scratch
+			if out2, err2 := pc.CombinedOutput(); err2 == nil {
+				err = nil
+			} else {
+				out = append(out, out2...)
+			}
+		}
+		if err != nil {
 			fmt.Printf("%-40s patch does not apply: %s\n", name, strings.TrimSpace(string(out)))
 			results = append(results, result{Name: name, Property: prop, Expect: expect, Got: "patch-failed"})
 			bad++
@@ -96,7 +107,7 @@ func cmdSelftest(args []string) int {
 		self, _ := os.Executable()
 		c := exec.Command(self, "check", prop, "--repo", scratch, "--verif", *verif, "--out", filepath.Join(tmp, "out"))
 		c.Env = goEnv()
-		out, _ := c.CombinedOutput()
+		out, _ = c.CombinedOutput()
 		got := "silent"
 		var lines []string
 		for _, l := range strings.Split(string(out), "\n") {
